@@ -44,16 +44,27 @@
    (candidate, image shown, answer) used to state the theorems; the executor
    observes the same through the Test callback and the log writer.
 
-   Not modelled: nested volumes (a volume inside a section of a file), files'
-   sections and the section half of Find (no predicate the cleaner can be
-   given from the command line matches a section), Remove's RemoveDxes mode,
+   Sections: a file carries at most the fact that one of its user-interface
+   sections names a GUID ([f_ui]); the section half of Find.Visit is modelled
+   for that case ([file_pred]).  The predicates the cleaner itself uses
+   (FindFileGUIDPredicate per candidate; type / blacklist predicates for the
+   candidate list) answer false on every section, so [f_ui] never influences
+   the cleaner — which is what the correspondence check tests on trees whose
+   UI names spell candidates' GUIDs.
+   Not modelled: nested volumes (a volume inside a section of a file), other
+   section kinds, several UI sections in one file, Remove's RemoveDxes mode,
    the printf output, parseBlackList and the CLI registration, the bytes of
    the pad file (only its header fields GUID/type/size), Save/Assemble of the
    tree shown to the test. *)
 From Fiano Require Import Base.Bytes Gen.Consts.
 Open Scope Z_scope.
 
-Record file := mkFile { f_id : Z; f_guid : Z; f_type : Z; f_size : Z }.
+Record file := mkFile {
+  f_id : Z; f_guid : Z; f_type : Z; f_size : Z;
+  f_ui : option Z   (* Some g: the file has a user-interface section whose name spells,
+                       case-insensitively, the string of GUID g; None: no UI section
+                       or an ordinary name *)
+}.
 Definition volume := list file.
 Definition image := list volume.
 
@@ -116,12 +127,19 @@ Definition find (p : file -> bool) (img : image) : list file := filter p (concat
 
 Definition guid_pred (g : Z) (f : file) : bool := f_guid f =? g.   (* FindFileGUIDPredicate *)
 Definition type_pred (t : Z) (f : file) : bool := f_type f =? t.   (* FindFileTypePredicate *)
+(* FindFilePredicate(<string of GUID g>), the predicate of the `remove` command:
+   Find.Visit matches the file itself when its GUID string matches, otherwise
+   the file once if one of its UI sections' names matches.  The cleaner does
+   not use it (it removes by FindFileGUIDPredicate); the Remove operation of
+   the correspondence check does. *)
+Definition file_pred (g : Z) (f : file) : bool :=
+  (f_guid f =? g) || match f_ui f with Some u => u =? g | None => false end.
 
 (* ---- uefi.CreatePadFile: header fields only ---- *)
 Definition create_pad (pol size nx : Z) : outcome file :=
   if size <? file_header_min_length then Err E_PADSIZE
-  else if pol =? 255 then Ok (mkFile nx ff_guid fv_filetype_pad size)
-  else if pol =? 0 then Ok (mkFile nx zero_guid fv_filetype_pad size)
+  else if pol =? 255 then Ok (mkFile nx ff_guid fv_filetype_pad size None)
+  else if pol =? 0 then Ok (mkFile nx zero_guid fv_filetype_pad size None)
   else Err E_PADPOL.
 
 (* ---- remove.go ---- *)
